@@ -127,8 +127,8 @@ Record st := mkst {
   rest : bytes;                  (* dec.buf[dec.head:dec.tail] *)
   err : option ek;               (* dec.Error *)
   simple : bool;
-  refs : list rent;
-  classes : list cinfo;
+  rrefs : list rent;              (* decoderRefer.ref, most recent first *)
+  rclasses : list cinfo;          (* dec.ref, most recent first *)
   alloc : N;                     (* bytes allocated because the wire said so *)
   steps : N;
   spin : N;                      (* loop iterations executed with the input exhausted and Error set *)
@@ -136,27 +136,27 @@ Record st := mkst {
   corrupt : bool }.              (* a value that violates Go's own invariants was produced *)
 
 Definition set_rest (s : st) (r : bytes) (e : option ek) (d : N) : st :=
-  mkst r e (simple s) (refs s) (classes s) (alloc s) (steps s + d) (spin s) (excess s) (corrupt s).
+  mkst r e (simple s) (rrefs s) (rclasses s) (alloc s) (steps s + d) (spin s) (excess s) (corrupt s).
 Definition set_error (s : st) (k : ek) : st :=              (* if dec.Error == nil { dec.Error = k } *)
-  mkst (rest s) (match err s with None => Some k | e => e end) (simple s) (refs s) (classes s)
+  mkst (rest s) (match err s with None => Some k | e => e end) (simple s) (rrefs s) (rclasses s)
        (alloc s) (steps s) (spin s) (excess s) (corrupt s).
 Definition force_error (s : st) (k : ek) : st :=            (* dec.Error = k *)
-  mkst (rest s) (Some k) (simple s) (refs s) (classes s) (alloc s) (steps s) (spin s) (excess s) (corrupt s).
+  mkst (rest s) (Some k) (simple s) (rrefs s) (rclasses s) (alloc s) (steps s) (spin s) (excess s) (corrupt s).
 Definition add_ref (s : st) (r : rent) : st :=              (* dec.AddReference(o) *)
   if simple s then s else
-  mkst (rest s) (err s) (simple s) (refs s ++ [r]) (classes s) (alloc s) (steps s) (spin s) (excess s) (corrupt s).
+  mkst (rest s) (err s) (simple s) (r :: rrefs s) (rclasses s) (alloc s) (steps s) (spin s) (excess s) (corrupt s).
 Definition force_ref (s : st) (r : rent) : st :=            (* dec.refer.Add(o) without the IsSimple test: never used by /repo *)
-  mkst (rest s) (err s) (simple s) (refs s ++ [r]) (classes s) (alloc s) (steps s) (spin s) (excess s) (corrupt s).
+  mkst (rest s) (err s) (simple s) (r :: rrefs s) (rclasses s) (alloc s) (steps s) (spin s) (excess s) (corrupt s).
 Definition add_class (s : st) (c : cinfo) : st :=
-  mkst (rest s) (err s) (simple s) (refs s) (classes s ++ [c]) (alloc s) (steps s) (spin s) (excess s) (corrupt s).
+  mkst (rest s) (err s) (simple s) (rrefs s) (c :: rclasses s) (alloc s) (steps s) (spin s) (excess s) (corrupt s).
 Definition add_alloc (s : st) (n : N) : st :=
-  mkst (rest s) (err s) (simple s) (refs s) (classes s) (alloc s + n) (steps s) (spin s) (excess s) (corrupt s).
+  mkst (rest s) (err s) (simple s) (rrefs s) (rclasses s) (alloc s + n) (steps s) (spin s) (excess s) (corrupt s).
 Definition add_excess (s : st) (n : N) : st :=
-  mkst (rest s) (err s) (simple s) (refs s) (classes s) (alloc s) (steps s) (spin s) (excess s + n) (corrupt s).
+  mkst (rest s) (err s) (simple s) (rrefs s) (rclasses s) (alloc s) (steps s) (spin s) (excess s + n) (corrupt s).
 Definition add_steps (s : st) (n : N) : st :=
-  mkst (rest s) (err s) (simple s) (refs s) (classes s) (alloc s) (steps s + n) (spin s) (excess s) (corrupt s).
+  mkst (rest s) (err s) (simple s) (rrefs s) (rclasses s) (alloc s) (steps s + n) (spin s) (excess s) (corrupt s).
 Definition set_corrupt (s : st) : st :=
-  mkst (rest s) (err s) (simple s) (refs s) (classes s) (alloc s) (steps s) (spin s) (excess s) true.
+  mkst (rest s) (err s) (simple s) (rrefs s) (rclasses s) (alloc s) (steps s) (spin s) (excess s) true.
 Definition set_simple (s : st) (b : bool) : st :=           (* dec.Simple(b): also dec.Reset() *)
   mkst (rest s) (err s) b [] [] (alloc s) (steps s) (spin s) (excess s) (corrupt s).
 Definition reset_refs (s : st) : st :=                      (* dec.Reset() *)
@@ -164,7 +164,7 @@ Definition reset_refs (s : st) : st :=                      (* dec.Reset() *)
 (* n iterations of a loop in a state where nothing can change any more: each costs a step and
    [per] bytes *)
 Definition spin_by (s : st) (n : N) (per : N) : st :=
-  mkst (rest s) (err s) (simple s) (refs s) (classes s) (alloc s + n * per) (steps s + n) (spin s + n)
+  mkst (rest s) (err s) (simple s) (rrefs s) (rclasses s) (alloc s + n * per) (steps s + n) (spin s + n)
        (excess s + n) (corrupt s).
 
 Definition has_err (s : st) : bool := match err s with Some _ => true | None => false end.
@@ -193,6 +193,8 @@ Inductive site :=
 | HObjMapField     (* mapDecoder.decodeObjectAsMap: fields[name] missing -> field.Type is nil *)
 | HObjMapKey       (* mapDecoder.decodeObjectAsMap into map[interface{}]..: the key pointer is a *string, read as an
                       interface{} header: memory corruption, the runtime dies (fatal error, not a panic) *)
+| HArrayNeg        (* arrayDecoder.Decode: count < 0 -> for i := count; i < length; i++ { UnsafeSetIndex(array, i, ..) }
+                      writes before the array: memory corruption (SIGSEGV for a large |count|, silent damage for a small one) *)
 | HClientCount.    (* clientCodec.Decode: for i := count; i < n; i++ { results[i] = .. } with count < 0 *)
 
 (* texts handed to library parsers: answered by a finite table per case (DESIGN 3: oracles) *)
@@ -458,8 +460,8 @@ Fixpoint convert (r : rent) (dest : shape) (s : st) : out (option aval) :=
 Definition read_reference (dest : shape) (s : st) : out aval :=
   let '(i, s1) := read_int s in
   let fixed := ROk ANil (set_error s1 KDecode) in
-  if (i <? 0)%Z then RHaz HRefIndex s1 fixed else
-  match nth_error (refs s1) (Z.to_nat i) with
+  if (i <? 0)%Z || (Z.of_nat (length (rrefs s1)) <=? i)%Z then RHaz HRefIndex s1 fixed else
+  match nth_error (rrefs s1) (length (rrefs s1) - 1 - Z.to_nat i) with
   | None => RHaz HRefIndex s1 fixed
   | Some r =>
     bnd (convert r dest s1) (fun v s2 =>
@@ -561,8 +563,8 @@ Definition read_struct (sh : shape) (s : st) : out unit :=
 Definition get_class (s : st) (k : cinfo -> st -> out aval) : out aval :=
   let '(i, s1) := read_int s in
   let fixed := ROk ANil (set_error s1 KDecode) in
-  if (i <? 0)%Z then RHaz HClassIndex s1 fixed else
-  match nth_error (classes s1) (Z.to_nat i) with
+  if (i <? 0)%Z || (Z.of_nat (length (rclasses s1)) <=? i)%Z then RHaz HClassIndex s1 fixed else
+  match nth_error (rclasses s1) (length (rclasses s1) - 1 - Z.to_nat i) with
   | None => RHaz HClassIndex s1 fixed
   | Some c => k c s1
   end.
@@ -799,9 +801,9 @@ Definition dec_array_list (n : nat) (e : shape) (s : st) : out aval :=
   let s2 := add_ref s1 (RPtr (SArray n e)) in
   let body := fun x => unit_of (rv e x) in
   if (c <? 0)%Z then
-    (* n = count < 0: for i := n; i < length; i++ { UnsafeSetIndex(array, i, ..) } writes before the array *)
-    if fx_neg fx then ROk (AOther true) (set_error s2 KDecode)
-    else ROk (AOther true) (skip1 (if Nat.eqb n 0 then s2 else set_corrupt s2))
+    (* n = count < 0: no element is read; for i := n; i < length; i++ { UnsafeSetIndex(array, i, emptyElem) } *)
+    if Nat.eqb n 0 then ROk (AOther true) (skip1 s2)
+    else RHaz HArrayNeg s2 (ROk (AOther true) (set_error s2 KDecode))
   else
     let m := Z.min (Z.of_nat n) c in
     bnd (loop lf body (stuck_alloc e) m s2) (fun _ s3 =>
@@ -880,8 +882,13 @@ Definition dec_struct (nm : bytes) (f : fields) (tag : byte) (s : st) : out aval
   else default_decode sh tag s.
 
 (* ---- *T : ptrDecoder and the typed pointer decoders *)
+(* pointers decoded by the generic ptrDecoder (the others have typed decoders: decodeIntPtr ...) *)
+Definition generic_ptr (e : shape) : bool :=
+  match e with SNum _ | SString | SIface | SBytes => false | _ => true end.
+
 Definition dec_ptr (e : shape) (tag : byte) (s : st) : out aval :=
   if tag_is tag "n" then ROk ANil s
+  else if tag_is tag "r" && generic_ptr e then read_reference (SPtr e) s     (* ptrDecoder: case TagRef *)
   else bnd (rt e tag (add_alloc s (size e))) (fun _ s1 => ROk (AOther true) s1).
 
 Definition dec_tag_body (sh : shape) (tag : byte) (s : st) : out aval :=
